@@ -361,6 +361,13 @@ impl<C: Decoder> Decoder for Counting<C> {
     }
 }
 
+impl<I, C: Encoder<I>> Encoder<I> for Counting<C> {
+    type Error = <C as Encoder<I>>::Error;
+    fn encode(&mut self, item: I, dst: &mut BytesMut) -> Result<(), Self::Error> {
+        self.inner.encode(item, dst)
+    }
+}
+
 /// One of the state-preserving conversions of `Framed`, chosen by `k`: all of them must carry both buffers and the
 /// flags over unchanged.
 fn convert<T, U: Clone>(f: Framed<T, U>, k: usize) -> Framed<T, U> {
@@ -386,12 +393,17 @@ fn io_item(e: &io::Error, decode_tag: &str) -> String {
     }
 }
 
-fn run_c13<C: Decoder + Unpin + Clone>(
+fn run_c13<C: Decoder + Encoder<W> + Unpin + Clone, W>(
     codec: C,
     conv: bool,
+    duplex: Option<usize>,
     toks: &[&str],
-    show: fn(Result<C::Item, C::Error>) -> String,
-) -> String {
+    show: fn(Result<<C as Decoder>::Item, <C as Decoder>::Error>) -> String,
+    mk: fn(usize) -> W,
+) -> String
+where
+    <C as Encoder<W>>::Error: From<io::Error>,
+{
     let mut rd = VecDeque::new();
     let mut nbytes = 0;
     // a leading b<hex>: build the Framed from parts with a pre-filled read buffer
@@ -442,6 +454,28 @@ fn run_c13<C: Decoder + Unpin + Clone>(
         if conv {
             framed = convert(framed, polls);
         }
+        if let Some(seed) = duplex {
+            // the same Framed used as a Sink between the reads: the write half (readiness, sends, flushes, close = flush + shutdown
+            // of the WRITE direction) must leave what is read and decoded alone
+            let h = (seed as u64 * 1000003 + polls as u64).wrapping_mul(0x9E3779B97F4A7C15) >> 33;
+            match h % 7 {
+                2 => {
+                    let _ = Sink::<W>::poll_ready(Pin::new(&mut framed), &mut cx);
+                }
+                3 => {
+                    let _ = Sink::<W>::poll_flush(Pin::new(&mut framed), &mut cx);
+                }
+                4 => {
+                    let _ = Sink::<W>::poll_close(Pin::new(&mut framed), &mut cx);
+                }
+                5 | 6 => {
+                    if framed.is_write_ready() {
+                        let _ = Sink::<W>::start_send(Pin::new(&mut framed), mk(polls % 9));
+                    }
+                }
+                _ => {}
+            }
+        }
         let before = framed.codec_ref().calls;
         let r = Pin::new(&mut framed).poll_next(&mut cx);
         let calls = framed.codec_ref().calls - before;
@@ -473,6 +507,11 @@ fn c13(line: &str) -> String {
         Some(c) => (c, true),
         None => (codec, false),
     };
+    // "<codec>+w<seed>": duplex use
+    let (codec, duplex) = match codec.split_once("+w") {
+        Some((c, sd)) => (c, Some(sd.parse::<usize>().expect("+w<seed>"))),
+        None => (codec, None),
+    };
     let toks = split_nonempty(script, ',');
     fn show_lp(it: Result<Vec<u8>, LpError>) -> String {
         match it {
@@ -484,16 +523,30 @@ fn c13(line: &str) -> String {
         }
     }
     match codec {
-        "lines" => run_c13(LinesCodec::default(), conv, &toks, |it| match it {
-            Ok(s) => format!("IO:{}", blob(s.as_bytes())),
-            Err(e) => io_item(&e, "E"),
-        }),
-        "bytes" => run_c13(BytesCodec, conv, &toks, |it| match it {
-            Ok(b) => format!("IO:{}", blob(&b[..])),
-            Err(e) => io_item(&e, "?"),
-        }),
-        "lp" => run_c13(LpCodec { default_eof: false }, conv, &toks, show_lp),
-        "lpd" => run_c13(LpCodec { default_eof: true }, conv, &toks, show_lp),
+        "lines" => run_c13(
+            LinesCodec::default(),
+            conv,
+            duplex,
+            &toks,
+            |it| match it {
+                Ok(s) => format!("IO:{}", blob(s.as_bytes())),
+                Err(e) => io_item(&e, "E"),
+            },
+            |k| String::from_utf8(payload(k, k)).unwrap(),
+        ),
+        "bytes" => run_c13(
+            BytesCodec,
+            conv,
+            duplex,
+            &toks,
+            |it| match it {
+                Ok(b) => format!("IO:{}", blob(&b[..])),
+                Err(e) => io_item(&e, "?"),
+            },
+            |k| Bytes::from(payload(k, k)),
+        ),
+        "lp" => run_c13(LpCodec { default_eof: false }, conv, duplex, &toks, show_lp, |k| payload(k, k)),
+        "lpd" => run_c13(LpCodec { default_eof: true }, conv, duplex, &toks, show_lp, |k| payload(k, k)),
         c => panic!("unknown codec {c}"),
     }
 }
@@ -550,6 +603,22 @@ where
             b'x' => {
                 // an explicit conversion (model: OConv): carries everything over, touches nothing
                 framed = convert(framed, k);
+                Poll::Ready(Ok(()))
+            }
+            b'y' => {
+                // rebuild from FRESH parts (FramedParts::new / with_read_buf) that carry both buffers over through the public
+                // fields — the documented way to move a connection to another codec; for the write half nothing may change
+                // (model: OConv).  (The read flags start empty in fresh parts: that is why this is not one of the `+x` conversions.)
+                let old = framed.into_parts();
+                let mut parts = if k % 2 == 0 {
+                    actix_codec::FramedParts::with_read_buf(old.io, old.codec, old.read_buf)
+                } else {
+                    let mut p = actix_codec::FramedParts::new(old.io, old.codec);
+                    p.read_buf = old.read_buf;
+                    p
+                };
+                parts.write_buf = old.write_buf;
+                framed = Framed::from_parts(parts);
                 Poll::Ready(Ok(()))
             }
             b'r' => Sink::<I>::poll_ready(Pin::new(&mut framed), &mut cx),
